@@ -11,6 +11,13 @@ CHECKS = {
             "trusts the harness generator to stay inside the property's value domain and the equality oracle's normalisations (nil==empty, 100ns, NaN)", "3/C01"),
 }
 
+CHECKS["C02"] = ("exploration", "hostile-input decode monitor (structure-aware mutation corpus, per-call allocation and CPU-time meters, panic and process-death capture with write-ahead journal)",
+    "Feeds mutated encodings, type-directed length bombs, a Variant header grid, nesting towers and random bytes to the real decoders of every registered type in child processes and measures each call (panic, bytes allocated, CPU time, process death). Held = no input among those explored broke a bound.",
+    "bounds instantiated as alloc <= 1024*len+16MiB and <= 20 CPU-seconds per call; inputs <= 2 MiB", "3/C02")
+CHECKS["C03"] = ("exploration", "decode / re-encode / decode differential monitor over the hostile corpus",
+    "Every input of the C02 corpus plus targeted non-canonical forms that decodes is re-encoded with the real encoder and decoded again; the two decoded values must be equal. A violation is a concrete byte string.",
+    "equality oracle as in C01; only inputs that decode exercise the oracle (count reported in evidence)", "3/C03")
+
 NOT_YET = {}
 
 
